@@ -110,12 +110,15 @@ class ProblemCase(Case):
                     coef[i, j] = env.real(f"a_{i}_{j}", -10, 10)
                     env.assume(Not(coef[i, j] == 0))
         x = env.reals("x", len(self.free), lo=-BIG, hi=BIG)          # the free point the algorithm asks about
+        x2 = env.reals("y", len(self.free), lo=-BIG, hi=BIG)         # a second, clearly different point
+        from .common import Or as _Or
+        env.assume(_Or(*[_Or(x2[t] - x[t] > 1 + abs(x[t]), x[t] - x2[t] > 1 + abs(x[t])) for t in range(len(self.free))]) if self.free else SB(True))
         x0 = env.reals("x0", N, lo=-1, hi=2)                          # initial values (fixed variables keep them)
         g = env.reals("g", len(self.nkinds), lo=-BIG, hi=BIG)         # raw non-linear constraint values at x
         J = env.reals("J", (1 + len(self.nkinds), len(self.free)), lo=-BIG, hi=BIG)  # raw gradient rows at x
         vlo = env.reals("vlo", N, lo=-5, hi=-1)
         vhi = env.reals("vhi", N, lo=2, hi=5)
-        return dict(nlo=nlo, nhi=nhi, llo=llo, lhi=lhi, coef=coef, x=x, x0=x0, g=g, J=J, vlo=vlo, vhi=vhi)
+        return dict(nlo=nlo, nhi=nhi, llo=llo, lhi=lhi, coef=coef, x=x, x2=x2, x0=x0, g=g, J=J, vlo=vlo, vhi=vhi)
 
     def run(self, env, inp):
         import ropt.plugins.optimizer.scipy as S
@@ -183,6 +186,11 @@ class ProblemCase(Case):
                     else:
                         out["lin"] = c
             out["vals"], out["jacs"] = vals_, jacs
+            # the same callables at a second point, without an objective request in between
+            out["vals2"] = []
+            if out["kind"] == "minimize":
+                x2 = env.arr(inp["x2"])
+                out["vals2"] = [(c["type"], c["fun"](x2)) for c in cons]
             out["options"] = kw.get("options") if out["kind"] == "minimize" else {k: v for k, v in kw.items()}
             return out
         finally:
@@ -249,6 +257,18 @@ class ProblemCase(Case):
                 v = np.atleast_1d(np.asarray(vals(v), dtype=object)).ravel()[0]
                 sc.append(v == 0 if typ == "eq" else v >= 0)
             props.append(("scipy_feasible_iff_configured_feasible", Iff(And(*sc) if sc else SB(True), cfg_feasible)))
+            # second point: linear rows must be re-evaluated there (non-linear raw values are the callback's)
+            if out["vals2"]:
+                x2 = inp["x2"]
+                lin_val2 = {i: ssum([inp["coef"][i, j] * x2[free.index(j)] for j in free]) for i in rows}
+                sc2 = []
+                for (typ, v) in out["vals2"]:
+                    v = np.atleast_1d(np.asarray(vals(v), dtype=object)).ravel()[0]
+                    sc2.append(v == 0 if typ == "eq" else v >= 0)
+                ok2 = [And(inp["g"][k] >= inp["nlo"][k], inp["g"][k] <= inp["nhi"][k]) for k in range(len(self.nkinds))]
+                ok2 += [And(lin_val2[i] >= inp["llo"][i], lin_val2[i] <= inp["lhi"][i]) for i in rows]
+                props.append(("second_point.scipy_feasible_iff_configured_feasible",
+                              Iff(And(*sc2) if sc2 else SB(True), And(*ok2) if ok2 else SB(True))))
             props.append(("canary:all_inequalities_are_lower_bounds",
                           Iff(And(*sc) if sc else SB(True),
                               And(*([inp["g"][k] >= inp["nlo"][k] for k in range(len(self.nkinds)) if inp["nlo"][k].inf == 0] or [SB(True)])))))
